@@ -11,7 +11,12 @@ from .pack import fresh_value, to_term
 
 def eval_in(it, frame, expr):
     """spec expressions of a loop are evaluated directly in the function's frame"""
-    return spec_eval(it, expr, frame)
+    try:
+        return spec_eval(it, expr, frame)
+    except Raised as r:
+        # a specification that cannot be evaluated on the current code is a checker error
+        # (sidecar out of date), never a verdict about the code
+        raise Unsupported('loop specification %r raised %s%r' % (expr, r.exc.cls.name, r.exc.fields.get('args')))
 
 
 def exec_in(it, frame, src):
@@ -19,6 +24,8 @@ def exec_in(it, frame, src):
     it.spec_mode = True
     try:
         it.exec_block(parse_stmts(src), frame)
+    except Raised as r:
+        raise Unsupported('loop specification %r raised %s%r' % (src, r.exc.cls.name, r.exc.fields.get('args')))
     finally:
         it.spec_mode = saved
 
@@ -62,6 +69,8 @@ def _store(frame, name, v):
 def run_loop_with_spec(it, node, frame, spec, kind, iterable=None):
     p = it.p
     qn = '%s:%d' % spec.key
+    # the loop specification as seen by the property being checked (shared part + its own clauses)
+    lem_head, lem_tail, invariants = spec.parts(it.hooks.get('pid'))
     # ---- ghost initialisation and loop-kind specific state
     for (name, expr) in spec.consts:
         frame.locals[name] = eval_in(it, frame, expr)
@@ -90,7 +99,7 @@ def run_loop_with_spec(it, node, frame, spec, kind, iterable=None):
         loop_kind = 'while'
 
     def check_invariants(stage):
-        for label, expr in spec.invariants:
+        for label, expr in invariants:
             v = eval_in(it, frame, expr)
             p.oblige('%s#inv:%s:%s' % (qn, stage, label), as_formula(it, v), kind='invariant')
 
@@ -104,7 +113,14 @@ def run_loop_with_spec(it, node, frame, spec, kind, iterable=None):
     for (name, desc, init, step) in spec.ghost:
         _store(frame, name, fresh_value(it, name, desc))
     for src in getattr(spec, 'havoc_stmts', ()):
-        exec_in(it, frame, src)      # heap locations the body writes (fresh values via the prelude)
+        # heap locations the body writes (fresh values via the prelude); an entry (var, stmt)
+        # applies only if `var` is bound at the loop head (an object created inside the body
+        # carries no state from one iteration to the next)
+        if isinstance(src, tuple):
+            var, src = src
+            if not frame.lookup(var)[1]:
+                continue
+        exec_in(it, frame, src)
     if loop_kind == 'seq':
         old = frame.locals['_todo']
         frame.locals['_todo'] = SeqVal(p.fresh('_todo', old.term.sort()), old.elem)
@@ -132,10 +148,10 @@ def run_loop_with_spec(it, node, frame, spec, kind, iterable=None):
         else:
             _store(frame, name, eval_in(it, frame, expr))
     # ---- assume invariants
-    for label, expr in spec.invariants:
+    for label, expr in invariants:
         v = eval_in(it, frame, expr)
         p.assume(as_formula(it, v))
-    for src in spec.lemmas_head:
+    for src in lem_head:
         exec_in(it, frame, src)
     # ---- guard
     if loop_kind == 'while':
@@ -185,7 +201,7 @@ def run_loop_with_spec(it, node, frame, spec, kind, iterable=None):
     for (name, desc, init, step) in spec.ghost:
         if step is not None:
             _store(frame, name, eval_in(it, frame, step))
-    for src in spec.lemmas_tail:
+    for src in lem_tail:
         exec_in(it, frame, src)
     check_invariants('preserve')
     if measure0 is not None:
